@@ -425,6 +425,7 @@ class LinPath:
         self.outcome = None  # ('return', value) | ('raise', qual, [args]) | ('fall',)
         self.nodes: List[int] = []
         self.attrs: Dict[str, object] = {}
+        self.nulls: Dict[str, bool] = {}  # atom -> known to be None (True) / known not to be None (False) on this path
 
     def clone(self) -> 'LinPath':
         c = LinPath()
@@ -434,6 +435,7 @@ class LinPath:
         c.events = list(self.events)
         c.nodes = list(self.nodes)
         c.attrs = dict(self.attrs)
+        c.nulls = dict(self.nulls)
         return c
 
     def implies_lt0(self, lin: Lin) -> bool:
@@ -451,7 +453,7 @@ class LinPath:
         for kind, l in self.conds:
             if kind in ('le0', 'lt0', 'eq0') and l == lin:
                 return True
-            if kind == 'lt0' and l == lin + one:
+            if kind == 'lt0' and (l == lin + one or l == lin - one):    # integers: lin - 1 < 0  <=>  lin <= 0
                 return True
             if kind == 'eq0' and l == -lin:
                 return True
@@ -572,6 +574,12 @@ class LinExec:
             a = self.eval(e.left, path)
             b = self.eval(e.comparators[0], path)
             op = e.ops[0]
+            if isinstance(op, (ast.Is, ast.IsNot, ast.Eq, ast.NotEq)) and (a is NONE) != (b is NONE):
+                other = b if a is NONE else a
+                at = other.single_atom() if isinstance(other, Lin) else None
+                if at is not None:
+                    path.nulls[at] = (truth == isinstance(op, (ast.Is, ast.Eq)))
+                return
             if isinstance(op, (ast.Is, ast.IsNot)) or a is NONE or b is NONE:
                 return
             if not (isinstance(a, Lin) and isinstance(b, Lin)):
@@ -656,6 +664,7 @@ class LinExec:
                 raise UnknownIdiom('%s: unpacking of %s' % (self.func.qual, short(stmt)))
             for i, e in enumerate(t.elts):
                 path.env[e.id] = Lin.atom('%s[%d]' % (base, i))
+            path.nulls.setdefault(base, False)  # a value that unpacks is not None
             return
         d = dotted(t)
         if d is not None and isinstance(t, ast.Attribute):
@@ -765,3 +774,329 @@ class LinExec:
         if bt in self.minmax and self.minmax[bt][0] == 'max' and any(x == a for x in self.minmax[bt][1]):
             return True
         return False
+
+
+# ---------------------------------------------------------------------------
+# concrete evaluation of how a request constructor computes self.path (R11)
+# ---------------------------------------------------------------------------
+
+class _Unk:
+    def __repr__(self):
+        return '<unknown>'
+
+
+UNK = _Unk()
+
+
+class _Raised(Exception):
+    def __init__(self, qual: str, node):
+        Exception.__init__(self, qual)
+        self.qual, self.node = qual, node
+
+
+_PURE_TEXT_METHODS = {
+    'isascii', 'encode', 'decode', 'endswith', 'startswith', 'strip', 'lstrip', 'rstrip', 'lower', 'upper', 'replace', 'removeprefix', 'removesuffix',
+    'partition', 'rpartition', 'split', 'rsplit', 'find', 'rfind', 'index', 'count', 'isalnum', 'isalpha', 'isdigit', 'isprintable', 'casefold', 'join',
+}
+_CONCRETE = (str, bytes, int, bool, type(None), tuple)
+
+
+class CtorPathEval:
+    """Runs the CFG of a request constructor on ONE concrete value of the raw
+    path (`<env>[<raw_key>]`) and reports, for every way the constructor can
+    go, what it stores as `self.<attr>`.
+
+    Values are concrete text / bytes / ints or UNK (everything that is not
+    computed from the raw path by str / bytes methods, slicing, len(), `or`,
+    comparisons).  A test whose outcome is UNK forks; an exception raised by
+    a concrete step (a strict decode of undecodable bytes) follows the
+    node's exceptional edges to the first handler whose class catches it.
+    Nothing of the analysed code is executed: only str/bytes methods of the
+    checker's own interpreter are applied to the sample."""
+
+    MAX_STEPS = 20000
+
+    def __init__(self, project: Project, func: Func, cfg: CFG, attr: str, raw_key: str):
+        self.p, self.f, self.cfg, self.attr, self.raw_key = project, func, cfg, attr, raw_key
+        params = func.params()
+        if len(params) < 2:
+            raise AnchorError('%s: signature %s' % (func.qual, params))
+        self.envp = params[1]
+        self.steps = 0
+        self.sample = None
+        self.outcomes: List[tuple] = []
+        self.raw_read = False
+
+    # ---- expressions
+    def truth(self, e, env):
+        if isinstance(e, ast.BoolOp):
+            vals = [self.truth(v, env) for v in e.values]
+            if isinstance(e.op, ast.And):
+                return False if any(v is False for v in vals) else (True if all(v is True for v in vals) else None)
+            return True if any(v is True for v in vals) else (False if all(v is False for v in vals) else None)
+        if isinstance(e, ast.UnaryOp) and isinstance(e.op, ast.Not):
+            v = self.truth(e.operand, env)
+            return None if v is None else (not v)
+        v = self.ev(e, env)
+        return None if v is UNK else bool(v)
+
+    def ev(self, e, env):
+        if isinstance(e, ast.Constant):
+            return e.value if isinstance(e.value, _CONCRETE) else UNK
+        if isinstance(e, ast.Name):
+            return env.get(e.id, UNK)
+        if isinstance(e, ast.Tuple):
+            vals = [self.ev(x, env) for x in e.elts]
+            return UNK if any(v is UNK for v in vals) else tuple(vals)
+        if isinstance(e, ast.Subscript):
+            if isinstance(e.value, ast.Name) and e.value.id == self.envp and e.value.id not in env:
+                k = self.ev(e.slice, env) if not isinstance(e.slice, ast.Slice) else UNK
+                if k == self.raw_key:
+                    self.raw_read = True
+                    return self.sample
+                return UNK
+            base = self.ev(e.value, env)
+            if base is UNK or not isinstance(base, (str, bytes, tuple)):
+                return UNK
+            if isinstance(e.slice, ast.Slice):
+                parts = [None if x is None else self.ev(x, env) for x in (e.slice.lower, e.slice.upper, e.slice.step)]
+                if any(x is UNK or not (x is None or isinstance(x, int)) for x in parts):
+                    return UNK
+                return base[slice(*parts)]
+            k = self.ev(e.slice, env)
+            if k is UNK or not isinstance(k, int):
+                return UNK
+            try:
+                return base[k]
+            except IndexError:
+                raise _Raised('builtins.IndexError', e)
+        if isinstance(e, ast.BoolOp):
+            last = UNK
+            for x in e.values:
+                last = self.ev(x, env)
+                if last is UNK:
+                    return UNK
+                if isinstance(e.op, ast.And) and not last:
+                    return last
+                if isinstance(e.op, ast.Or) and last:
+                    return last
+            return last
+        if isinstance(e, ast.UnaryOp):
+            v = self.ev(e.operand, env)
+            if v is UNK:
+                return UNK
+            if isinstance(e.op, ast.Not):
+                return not v
+            if isinstance(e.op, ast.USub) and isinstance(v, int):
+                return -v
+            return UNK
+        if isinstance(e, ast.IfExp):
+            t = self.truth(e.test, env)
+            if t is None:
+                a, b = self.ev(e.body, env), self.ev(e.orelse, env)
+                return a if (a is not UNK and b is not UNK and type(a) is type(b) and a == b) else UNK
+            return self.ev(e.body if t else e.orelse, env)
+        if isinstance(e, ast.Compare):
+            vals = [self.ev(x, env) for x in [e.left] + list(e.comparators)]
+            if any(v is UNK for v in vals):
+                return UNK
+            try:
+                for op, a, b in zip(e.ops, vals, vals[1:]):
+                    r = {ast.Eq: lambda: a == b, ast.NotEq: lambda: a != b, ast.Lt: lambda: a < b, ast.LtE: lambda: a <= b, ast.Gt: lambda: a > b,
+                         ast.GtE: lambda: a >= b, ast.Is: lambda: a is b, ast.IsNot: lambda: a is not b, ast.In: lambda: a in b,
+                         ast.NotIn: lambda: a not in b}[type(op)]()
+                    if not r:
+                        return False
+            except TypeError:
+                return UNK
+            return True
+        if isinstance(e, ast.BinOp):
+            a, b = self.ev(e.left, env), self.ev(e.right, env)
+            if a is UNK or b is UNK:
+                return UNK
+            try:
+                if isinstance(e.op, ast.Add):
+                    return a + b
+                if isinstance(e.op, ast.Sub):
+                    return a - b
+            except TypeError:
+                return UNK
+            return UNK
+        if isinstance(e, ast.Call):
+            return self._call(e, env)
+        if isinstance(e, ast.NamedExpr) and isinstance(e.target, ast.Name):
+            v = self.ev(e.value, env)
+            env[e.target.id] = v
+            return v
+        return UNK
+
+    def _call(self, c: ast.Call, env):
+        if any(isinstance(a, ast.Starred) for a in c.args) or any(k.arg is None for k in c.keywords):
+            return UNK
+        fn = c.func
+        args = [self.ev(a, env) for a in c.args]
+        kw = {k.arg: self.ev(k.value, env) for k in c.keywords}
+        known = not any(v is UNK for v in args) and not any(v is UNK for v in kw.values())
+        if isinstance(fn, ast.Attribute):
+            if isinstance(fn.value, ast.Name) and fn.value.id == self.envp and fn.value.id not in env and fn.attr == 'get':
+                if args and args[0] == self.raw_key:
+                    self.raw_read = True
+                    return self.sample
+                return UNK
+            recv = self.ev(fn.value, env)
+            if recv is UNK or not isinstance(recv, (str, bytes)) or fn.attr not in _PURE_TEXT_METHODS or not known:
+                return UNK
+            try:
+                return getattr(recv, fn.attr)(*args, **kw)
+            except UnicodeDecodeError:
+                raise _Raised('builtins.UnicodeDecodeError', c)
+            except UnicodeEncodeError:
+                raise _Raised('builtins.UnicodeEncodeError', c)
+            except ValueError:
+                raise _Raised('builtins.ValueError', c)
+            except (LookupError, TypeError, AttributeError):
+                raise UnknownIdiom('%s: %s cannot be evaluated on a sample path' % (self.f.qual, short(c)))
+        q = self.p.resolve_expr(self.f.module, fn, self.f)
+        if q in ('builtins.len', 'builtins.str', 'builtins.bytes', 'builtins.bool') and known and args and isinstance(args[0], (str, bytes)):
+            try:
+                return {'builtins.len': len, 'builtins.str': str, 'builtins.bytes': bytes, 'builtins.bool': bool}[q](*args, **kw)
+            except UnicodeDecodeError:
+                raise _Raised('builtins.UnicodeDecodeError', c)
+            except UnicodeEncodeError:
+                raise _Raised('builtins.UnicodeEncodeError', c)
+            except (LookupError, TypeError, ValueError):
+                raise UnknownIdiom('%s: %s cannot be evaluated on a sample path' % (self.f.qual, short(c)))
+        return UNK
+
+    # ---- control flow
+    def run(self, sample: str) -> List[tuple]:
+        """[('stored', value|UNK, stmt) | ('raised', class qual, construct) | ('nostore', None, None)]"""
+        self.sample, self.outcomes, self.steps, self.raw_read = sample, [], 0, False
+        self._go(self.cfg.entry, {}, ())
+        return self.outcomes
+
+    def _bind(self, t, v, env):
+        if isinstance(t, ast.Name):
+            env[t.id] = v
+        elif isinstance(t, (ast.Tuple, ast.List)):
+            if isinstance(v, tuple) and len(v) == len(t.elts) and not any(isinstance(x, ast.Starred) for x in t.elts):
+                for x, y in zip(t.elts, v):
+                    self._bind(x, y, env)
+            else:
+                for x in ast.walk(t):
+                    if isinstance(x, ast.Name):
+                        env[x.id] = UNK
+
+    def _normal(self, nid):
+        return [(y, l) for (y, l) in self.cfg.succ[nid] if l != 'exc']
+
+    def _raise_to(self, nid, exc: _Raised, env, trail):
+        for (y, l) in self.cfg.succ[nid]:
+            if l != 'exc':
+                continue
+            n = self.cfg.node(y)
+            if y == self.cfg.xexit:
+                self.outcomes.append(('raised', exc.qual, exc.node))
+                return
+            if n.kind != 'handler':
+                raise UnknownIdiom('%s: %s raised inside a try/finally (%s)' % (self.f.qual, exc.qual, short(exc.node)))
+            h = n.ast
+            if h.type is None:
+                catches = True
+            else:
+                catches = False
+                for t in (h.type.elts if isinstance(h.type, ast.Tuple) else [h.type]):
+                    q = self.p.resolve_expr(self.f.module, t, self.f)
+                    r = self.p.is_subclass(exc.qual, q) if q else None
+                    if r is None:
+                        raise UnknownIdiom('%s: cannot decide whether `except %s` catches %s' % (self.f.qual, short(t), exc.qual))
+                    catches = catches or r
+            if catches:
+                self._go(y, env, trail)
+                return
+        self.outcomes.append(('raised', exc.qual, exc.node))
+
+    def _go(self, nid, env, trail):
+        while True:
+            self.steps += 1
+            if self.steps > self.MAX_STEPS or trail.count(nid) > 1:
+                raise UnknownIdiom('%s: the computation of self.%s does not terminate in the evaluator (loop?)' % (self.f.qual, self.attr))
+            trail = trail + (nid,)
+            n = self.cfg.node(nid)
+            if nid == self.cfg.exit:
+                self.outcomes.append(('nostore', None, None))
+                return
+            if nid == self.cfg.xexit:
+                self.outcomes.append(('raised', None, None))
+                return
+            try:
+                if n.kind == 'test':
+                    t = self.truth(n.ast, env)
+                    outs = [(y, l) for (y, l) in self.cfg.succ[nid] if l in ('T', 'F')]
+                    if t is None:
+                        for (y, l) in outs:
+                            self._go(y, dict(env), trail)
+                        return
+                    nxt = [y for (y, l) in outs if (l == 'T') == t]
+                    if not nxt:       # `while True` has no F edge
+                        return
+                    nid = nxt[0]
+                    continue
+                if n.kind == 'iter':
+                    for (y, l) in self.cfg.succ[nid]:
+                        if l in ('next', 'done'):
+                            e2 = dict(env)
+                            if l == 'next':
+                                self._bind(n.stmt.target, UNK, e2)
+                            self._go(y, e2, trail)
+                    return
+                if n.kind == 'with':
+                    for it in n.stmt.items:
+                        if it.optional_vars is not None:
+                            self._bind(it.optional_vars, UNK, env)
+                elif n.kind == 'handler':
+                    if n.ast.name:
+                        env[n.ast.name] = UNK
+                elif n.kind == 'stmt':
+                    s = n.ast
+                    if isinstance(s, (ast.Assign, ast.AnnAssign)):
+                        if s.value is not None:
+                            v = self.ev(s.value, env)
+                            for t in (s.targets if isinstance(s, ast.Assign) else [s.target]):
+                                if is_self_attr(t, self.attr):
+                                    self.outcomes.append(('stored', v, s))
+                                    return
+                                self._bind(t, v, env)
+                    elif isinstance(s, ast.AugAssign):
+                        if isinstance(s.target, ast.Name):
+                            env[s.target.id] = self.ev(ast.BinOp(left=ast.Name(id=s.target.id, ctx=ast.Load()), op=s.op, right=s.value), env)
+                        elif is_self_attr(s.target, self.attr):
+                            raise UnknownIdiom('%s: self.%s is updated in place' % (self.f.qual, self.attr))
+                    elif isinstance(s, ast.Expr):
+                        self.ev(s.value, env)
+                    elif isinstance(s, ast.Raise):
+                        e = s.exc.func if isinstance(s.exc, ast.Call) else s.exc
+                        q = self.p.resolve_expr(self.f.module, e, self.f) if e is not None else None
+                        targets = [y for (y, l) in self.cfg.succ[nid] if l == 'exc']
+                        if len(targets) == 1 and targets[0] != self.cfg.xexit and self.cfg.node(targets[0]).kind == 'handler':
+                            nid = targets[0]
+                            continue
+                        if targets == [self.cfg.xexit]:
+                            self.outcomes.append(('raised', q or short(s), s))
+                            return
+                        raise UnknownIdiom('%s: %s on the way to self.%s' % (self.f.qual, short(s), self.attr))
+                    elif isinstance(s, ast.Delete):
+                        for t in s.targets:
+                            if isinstance(t, ast.Name):
+                                env[t.id] = UNK
+            except _Raised as exc:
+                self._raise_to(nid, exc, dict(env), trail)
+                return
+            nxt = self._normal(nid)
+            if not nxt:
+                return
+            if len(nxt) > 1:
+                for (y, l) in nxt:
+                    self._go(y, dict(env), trail)
+                return
+            nid = nxt[0][0]
